@@ -21,6 +21,15 @@ CLAIMS = {
              'extracted model and libadm on every 16-bit/8-bit field value, sampled 32-bit values and all strings at '
              'edit distance 1 (sampled at distance 2); an independent ID grammar is the oracle on libadm.',
         design='8 C10'),
+    'C15': dict(
+        technique='Rocq proof of the timecode codec model + extracted-model/libadm differential run',
+        text='Theorems (Props/Properties_C15.v) hold for every nanosecond value below 100 h and every fraction with a '
+             'positive 31-bit denominator: parse(format t) = t exactly, the text has the shape hh:mm:ss.d{5,9} / '
+             'hh:mm:ss.nSd, and every accepted string has the grammar dd:dd:dd<sep>d+[Sd+] with a non-zero denominator '
+             '(so wrong widths, non-digit fields, missing parts, zero denominators are rejected). The model of '
+             'src/elements/time.cpp is hand-written and tied by running the extracted model and libadm on about two '
+             'million cases per quick run; an independent Python formatter/recogniser is the oracle on libadm.',
+        design='8 C15'),
 }
 
 NOT_YET = {}
